@@ -4,6 +4,7 @@ import GoSQLXModel.Props.C12
 import GoSQLXModel.Props.C14
 import GoSQLXModel.Props.C15
 import GoSQLXModel.Props.C16
+import GoSQLXModel.Gen.Structure
 /-!
 # C01 — No input can crash, panic or hang any entry point
 
@@ -23,6 +24,13 @@ What the models carry, for every input:
 * tree functions: traversal, scanning and extraction are structural recursions over the tree (`Val.walk`,
   `Scan.scan`, `Extract.Collector.run` are accepted by Lean without fuel) and visit nothing outside it
   (`Val.walk_sound`, `Extract.Collector.run_sound`).
+
+* grammar loops: `gen_parser_loops_leave_at_end` — an obligation on facts regenerated from the source: every loop of
+  pkg/sql/parser over the token stream (not a range or counted loop) is left when the tokens run out — its condition
+  is a positive token test (which the end marker never satisfies) or tests the end marker / token index, or its body
+  leaves on "none of the expected tokens" or returns the error of a fallible parse call — and every iteration consumes
+  a token, calls a parse function or leaves.  (A syntactic criterion, checked on every loop of the package, including
+  loops added later; it is what the cut-statement runs sample dynamically.)
 
 **Partial**: the statement and expression grammar below the loops (that `parseStatement` always moves forward or
 fails on every token list, including lists without an end marker) is not modelled; it is covered by the child-process
@@ -45,6 +53,11 @@ theorem tokenizer_returns (cls : CharClass) (inp : Lex.Bytes) :
 theorem loops_return (I : Input) (hF : Frame I) (strict : Bool) :
     (∃ r, parseLoop I strict (I.n + 2) 0 [] = some r) ∧ (∃ r, recLoop I (I.n + 2) 0 [] [] = some r) :=
   ⟨Props.C12.strict_terminates I hF strict, Props.C12.recovery_terminates I hF⟩
+
+/-- every token-stream loop of the parser package is left at the end of the tokens and moves on each iteration -/
+theorem gen_parser_loops_leave_at_end :
+    (Gen.Structure.parserLoops.all fun l => l.2.1 != "open" && l.2.2) = true ∧ Gen.Structure.parserLoops.length ≥ 40 := by
+  decide +kernel
 
 /-- traversal-based functions never leave the tree -/
 theorem tree_functions_stay_inside (t : ChildTable) (v : Val) :
